@@ -4,14 +4,28 @@ import world_check as wk
 
 def known(meta, msg):
     import vlib
+
     for k in vlib.known_findings().get("open", []):
         if k["property"] == "C10" and k.get("signature") == "reload-changes-queue-path" and meta.get("scenario") == "reload_new_queue" and msg.startswith("recovery"):
             return k["id"]
     return None
 
 
+def alloc_phase(rep, exe_impl, exe_model):
+    """every allocation of the operation under test fails in turn (thorough: every scenario family; quick: the passes
+    over one file, a history file and a project)"""
+    only = ["drain_one", "drain_history_offset", "drain_project", "accept_project"] if rep.tier == "quick" else None
+    cases = wk.alloc_fault_cases(exe_impl, rep.tier, rep.seed, only=only)
+    if not cases:
+        return False, 0, 0
+    f, v = wk.run_cases_known(rep, exe_impl, None, cases, ["fault_reported", "recovery", "no_partial", "position_kept", "position_not_ahead", "store_immutable", "queue_form"], known,
+                                shards=len(cases))
+    rep.cov.setdefault("input_distribution", {})
+    return f, v, len(cases)
+
+
 def main(rep):
-    wk.standard_main(rep, fault=True, fault_monitors=["fault_reported", "recovery", "no_partial", "position_kept", "position_not_ahead", "store_immutable", "queue_form"],
+    wk.standard_main(rep, fault=True, extra=alloc_phase, fault_monitors=["fault_reported", "recovery", "no_partial", "position_kept", "position_not_ahead", "store_immutable", "queue_form"],
                      known=known,
                      rule=("one failing system call at a time: every call index of the implementation's own log of the operation under test in each scenario "
                            "family x plausible errnos of that call (open: EACCES ENOSPC EMFILE EIO ENOENT; mkdir: EACCES ENOSPC; sendfile/write: EIO ENOSPC; "
